@@ -9,8 +9,8 @@ use std::{
 };
 
 use cfgrammar::{NewlineCache, Span};
-use lrlex::{DefaultLexerTypes, LRLexError, LRNonStreamingLexer};
-use lrpar::{LexParseError, NonStreamingLexer};
+use lrlex::{DefaultLexerTypes, LRLexError, LRNonStreamingLexer, LRNonStreamingLexerDef, LexerDef};
+use lrpar::{LexParseError, NonStreamingLexer, diagnostics::SpannedDiagnosticFormatter};
 use serde_json::{Value, json};
 
 use crate::{rng::Rng, util::catch};
@@ -83,6 +83,18 @@ fn answers(text: &str, nlc: &NewlineCache, rng: &mut Rng, maxspans: usize) -> Va
         n2.feed(text);
         LRNonStreamingLexer::<DefaultLexerTypes<u32>>::new(text, vec![], n2)
     };
+    // the same queries through a lexer that lrlex itself produced for this text - with all token
+    // ids present, or (every other case) with the word rule's id missing so that lexing stops
+    // with an error at the first word - and through the diagnostics formatter
+    let mut def = LRNonStreamingLexerDef::<DefaultLexerTypes<u32>>::from_str("%%\n[a-z\u{e9}]+ 'W'\n[ \\t\\n\\r]+ ;\n(?s:.) 'O'\n").unwrap();
+    let mut ids = std::collections::HashMap::new();
+    ids.insert("O", 1u32);
+    if len % 2 == 0 {
+        ids.insert("W", 0u32);
+    }
+    def.set_rule_ids(&ids);
+    let lexer2 = def.lexer(text);
+    let diag = SpannedDiagnosticFormatter::new(text, std::path::Path::new("f.y"));
     let spans = pairs
         .iter()
         .map(|&(s, e)| {
@@ -111,7 +123,20 @@ fn answers(text: &str, nlc: &NewlineCache, rng: &mut Rng, maxspans: usize) -> Va
                 .filter_map(|x| x.parse().ok())
                 .collect();
             let (ppl, ppc) = if nums.len() == 2 { (nums[0], nums[1]) } else { (-7, -7) };
-            json!([s, e, st, en, lcs[0], lcs[1], lcs[2], lcs[3], sl.0, sl.1, ppl, ppc])
+            let lcs2 = catch(|| lexer2.line_col(Span::new(s, e)))
+                .map(|((a, b), (c, d))| [a as i64, b as i64, c as i64, d as i64])
+                .unwrap_or([-7, -7, -7, -7]);
+            let sl2 = catch(|| {
+                let sub = lexer2.span_lines_str(Span::new(s, e));
+                let off = sub.as_ptr() as usize - text.as_ptr() as usize;
+                (off as i64, (off + sub.len()) as i64)
+            })
+            .unwrap_or((-7, -7));
+            let fl = catch(|| diag.file_location_msg("", Some(Span::new(s, e)))).unwrap_or_else(|_| "PANIC".to_string());
+            let fnums: Vec<i64> = fl.rsplit(':').take(2).filter_map(|x| x.trim().parse().ok()).collect();
+            let (fll, flc) = if fnums.len() == 2 { (fnums[1], fnums[0]) } else { (-7, -7) };
+            json!([s, e, st, en, lcs[0], lcs[1], lcs[2], lcs[3], sl.0, sl.1, ppl, ppc,
+                   lcs2[0], lcs2[1], lcs2[2], lcs2[3], sl2.0, sl2.1, fll, flc])
         })
         .collect::<Vec<_>>();
     json!({"ev": "answers", "line": line, "lb": lb, "lc": lc, "spans": spans})
